@@ -239,6 +239,30 @@ def run(rep: Report, tier: str) -> None:
                 rep.add(Finding("R21.3", f"R21.3/docs-example/{ex}", "docs/data_types.rst", in_tab[0].line, "Time_Period input formats",
                                 f"documented input {ex!r} ({row[0]}) is normalised by vtl_period_normalize to {norm!r}, which is not a canonical accepted period"))
     rep.floor("documented Time_Period examples", nex, 10)
+    spelling_grid(rep, "R21.3", macros, limits)
+    rep.analysed = {"render_cells": ncell, "docs_examples": nex, "formats": FORMATS}
+    # ---- R21.4: no memoised renderer / parser of periods whose result depends on the (process-global) output format ----
+    rep.rule("R21.4", "memoised functions on the Time_Period path return immutable values that depend only on their arguments")
+    from sa import globalsx as _gx
+    _n = 0
+    for _f in P.iter_functions():
+        if any(d in _gx.CACHE_DECOS or d.split(".")[-1] in _gx.CACHE_DECOS for d in _f.decorators) and _f.module.name.startswith(("vtlengine.files", "vtlengine.DataTypes", "vtlengine.duckdb_transpiler.io")):
+            _n += 1
+            rep.instance("R21.4", f"memo/{_f.qualname}", nontrivial=True)
+    for _f, _why, _line in _gx.memo_findings(P, ("vtlengine.files", "vtlengine.DataTypes", "vtlengine.duckdb_transpiler.io")):
+        rep.add(Finding("R21.4", f"R21.4/memo/{_f.qualname}", _f.module.rel, _line, _f.qualname,
+                        f"{_f.name} is memoised and {_why}: a period rendered under one time_period_output_format is returned again under another"))
+    rep.instance("R21.4", "memo-inventory", nontrivial=False, sample=_n)
+    rep.assumptions = ["canonical internal form = TimePeriodHandler.__str__ (lowered from the source)", "SQL string functions SUBSTR/LENGTH/LPAD/"
+                       "UPPER/CAST/TRY_CAST/|| have standard semantics; period_to_date(year,'D',n) = 1 January + (n-1) days"]
+
+
+def spelling_grid(rep: Report, rule: str, macros: Dict[str, Any], limits: Dict[str, int]) -> None:
+    """Every spelling of the documented input families (compact / hyphenated, any zero padding, either letter case) is pushed through
+    the parsed vtl_period_normalize macro and must come out as THE canonical text of the same period: two spellings of one period
+    must not survive as two different strings - they are compared as text afterwards (duplicate-key check, ordering of cumulative
+    operators, rendering).  Shared with C19 (two spellings of one key are accepted as distinct datapoints) and C08 (flow_to_stock /
+    fill_time_series order un-normalised values as text)."""
     # every spelling of the documented families (compact / hyphenated, any zero padding, either letter case) normalises to THE canonical
     # text of the same period: two spellings of one period must not survive as two different strings (they are compared as text later)
     nsp = 0
@@ -266,24 +290,9 @@ def run(rep: Report, tier: str) -> None:
                     got = f"<error {str(e)[:40]}>"
                 if got != want and shown_sp < 6:
                     shown_sp += 1
-                    rep.add(Finding("R21.3", f"R21.3/spelling/{ind}/{sp}", "src/vtlengine/duckdb_transpiler/sql/init.sql", macros["vtl_period_normalize"].line,
+                    rep.add(Finding(rule, f"{rule}/spelling/{ind}/{sp}", "src/vtlengine/duckdb_transpiler/sql/init.sql", macros["vtl_period_normalize"].line,
                                     "macro:vtl_period_normalize",
                                     f"the input spelling {sp!r} of the period {want} is normalised to {got!r}: the stored text differs from the canonical one, so the same period "
                                     f"written in two ways compares unequal and is rendered with the wrong padding"))
-    rep.instance("R21.3", "spelling-grid", nontrivial=True, sample={"spellings evaluated": nsp})
-    rep.floor("R21.3 spellings", nsp, 150)
-    rep.analysed = {"render_cells": ncell, "docs_examples": nex, "formats": FORMATS}
-    # ---- R21.4: no memoised renderer / parser of periods whose result depends on the (process-global) output format ----
-    rep.rule("R21.4", "memoised functions on the Time_Period path return immutable values that depend only on their arguments")
-    from sa import globalsx as _gx
-    _n = 0
-    for _f in P.iter_functions():
-        if any(d in _gx.CACHE_DECOS or d.split(".")[-1] in _gx.CACHE_DECOS for d in _f.decorators) and _f.module.name.startswith(("vtlengine.files", "vtlengine.DataTypes", "vtlengine.duckdb_transpiler.io")):
-            _n += 1
-            rep.instance("R21.4", f"memo/{_f.qualname}", nontrivial=True)
-    for _f, _why, _line in _gx.memo_findings(P, ("vtlengine.files", "vtlengine.DataTypes", "vtlengine.duckdb_transpiler.io")):
-        rep.add(Finding("R21.4", f"R21.4/memo/{_f.qualname}", _f.module.rel, _line, _f.qualname,
-                        f"{_f.name} is memoised and {_why}: a period rendered under one time_period_output_format is returned again under another"))
-    rep.instance("R21.4", "memo-inventory", nontrivial=False, sample=_n)
-    rep.assumptions = ["canonical internal form = TimePeriodHandler.__str__ (lowered from the source)", "SQL string functions SUBSTR/LENGTH/LPAD/"
-                       "UPPER/CAST/TRY_CAST/|| have standard semantics; period_to_date(year,'D',n) = 1 January + (n-1) days"]
+    rep.instance(rule, "spelling-grid", nontrivial=True, sample={"spellings evaluated": nsp})
+    rep.floor(f"{rule} spellings", nsp, 150)
